@@ -226,7 +226,7 @@ fn step_union_ab<const N: usize, const R: usize>(bq: usize, br: usize, fixed_a: 
     } else {
         assert!(res.is_ok(), "C06 union succeeds when the union fits");
         let lu = enc::<N, R>(ma | mb);
-        assert!(same::<N>(&a, &lu), "C06 C01 union equals the canonical layout of A ∪ B");
+        assert!(same::<N>(&a, &lu), "C06 C01 C13 union equals the canonical layout of A u B");
     }
 }
 macro_rules! qf_union_harness {
